@@ -121,7 +121,7 @@ def run(tier, seed):
         projects.append(("keys%d" % bi, {"src/lib.rs": "\n".join(src)}, None))
     # 2. event names over Tauri's alphabet
     ge = C.run_tlc("Gen_Names", "Gen_Names_events", workers=2, timeout=600).json_lines("REPLAY")
-    std = {"receiver": "app", "placed": "ok_recv", "method": "emit", "lit": True}
+    std = {"receiver": "app", "placed": "ok_recv", "frames": [], "method": "emit", "lit": True}
     for bi in range(0, len(ge), 140):
         src = PC.EMIT_PRELUDE + "use tauri::Emitter;\n"
         for j, c in enumerate(ge[bi:bi + 140]):
